@@ -30,15 +30,21 @@ import Tickit.Proof.EvLoopFbEnd
     `observer_invariant`, `observer_moves_only_on_build_and_destroy`, `destroying_another_instance_keeps_observer`,
     `destroying_the_observer_clears_it`, `instance_built_observes_iff_nobody_does`, `observer_instance_records_signals`
     (the end-to-end theorem applies to every iteration of the observer instance, whatever was done to the others).
-  Defects of the shipped tree: the `*_counterexample` theorems (corpus/C18).  No statement of the property
-  is left open; `OsPpoll` is assumed.  The default loop serves ONE toplevel instance with signals (its own
+  Defects of the tree as first shipped: the `*_counterexample` theorems (corpus/C18); all are repaired in /repo.
+  No statement of the property is left open; `OsPpoll` is assumed.  The default loop serves ONE toplevel instance with signals (its own
   TODO): `second_instance_*_counterexample` (known findings).
 
-  The self-pipe configuration (event hooks without signal members; Model/EvLoopFb.lean) is covered by the
-  differential run and the executable specification; here only: `fb_handler_records_and_wakes`,
-  `fb_dispatch_starts_from_empty_pending` (all states), the defect `fb_self_cancel_counterexample` /
-  `fb_self_cancel_repaired`, and evaluated schedules of arrival during dispatch (`fb_arrival_during_dispatch_*`).
-  The end-to-end statement `FbSignalReachesWatchers` is open (engines.d/C18.json).
+  The self-pipe configuration (event hooks without signal members: tickit.c's sigaction + self-pipe fallback;
+  Model/EvLoopFb.lean), for every history of one instance, all behaviour tables, any variant of the rest of the source:
+    `fb_signal_bookkeeping_invariant`     the pipe watch and its poll entry are intact in every reachable state, nothing a
+                                          callback can reach names it, a recorded signal has its wake-up byte in the pipe;
+    `fb_signal_reaches_watchers`          end to end: a signal recorded by the handler while a watch is linked leads to that
+                                          watch's callback in the very next iteration, unless the watch is cancelled meanwhile
+                                          (`fb_signal_reaches_watchers_iteration`: the same for one `evloop_run` iteration);
+    `fb_handler_records_and_wakes`, `fb_dispatch_starts_from_empty_pending` (all states), the defect
+    `fb_self_cancel_counterexample` / `fb_self_cancel_repaired`, evaluated schedules `fb_arrival_during_dispatch_*`.
+  The walk of the repaired `tickit_evloop_invoke_sigwatches` is one loop for both configurations (`sigSnapLoopG`); its
+  theorems (`sigsnapG_*`, Proof/EvLoopSig.lean, Proof/EvLoopLog.lean) are proved once.
 -/
 namespace Tickit.Props.C18
 open Tickit Tickit.EvLoop
@@ -436,7 +442,7 @@ theorem fb_dispatch_starts_from_empty_pending (fuel : Nat) (st : St) (h : st.cfg
 
 def fbProbeSelfCancel : List Op := [.beh ⟨0, 0, [.cancel 0]⟩, .act (.signal 0 10 0), .act (.raise 10), .tick]
 
-/-- Defect (known finding `sigpipe_self_cancel_uaf`, repair fixes/C18_sigpipe_dispatch.patch): as found,
+/-- Defect (repaired in /repo: fixes/C18_sigpipe_dispatch.patch): as found,
     `on_sigpipe_readable` reads `this->next` of a signal watch that cancelled itself from its own callback. -/
 theorem fb_self_cancel_counterexample :
     (Fb.runOps { Config.repaired with sigpipeViaInvoke := false } fbProbeSelfCancel).status = .ub .sigLoopThis := by
